@@ -31,7 +31,7 @@ ASSUMPTIONS = [
 ]
 BOUNDS = {
     "quick": "dispatcher + all observers: K3[seed%2::2] + small probes, 1 fault, builder disjunctive/agent-task alternating; env: K3[::6] + 2x2 probe",
-    "thorough": "dispatcher: K3 complete 1 fault; all ordered pairs of faults on K3 instances with <= 2 operations and K3[seed%8::8]; K4[seed%16::16] 1 fault; env: K3[::2], small probes",
+    "thorough": "dispatcher: K3 complete, every single fault on freshly rebuilt objects; all ordered pairs of faults on K3 instances with <= 2 operations and K3[seed%8::8]; K4[seed%16::16] 1 fault; env: K3[::2], small probes",
 }
 
 
@@ -50,7 +50,7 @@ def cases(tier, seed):
             # all ordered pairs of faults on the <= 2-operation instances and a
             # slice of the 3-operation ones; single faults (cold rebuild each) on all
             pairs = F.n_ops(s) <= 2 or i % 8 == seed % 8
-            out.append(("dispatcher", s, 2 if pairs else 1, _env.BUILDERS[i % 4]))
+            out.append(("dispatcher", s, 3 if pairs else 2, _env.BUILDERS[i % 4]))
         for i, s in enumerate(F.sliced(F.K4(), seed % 16, 16)):
             out.append(("dispatcher", s, 1, _env.BUILDERS[i % 4]))
         for s in F.P_SMALL:
@@ -120,6 +120,9 @@ def run_case(case) -> Res:
 
 
 def run_dispatcher(res, spec, nfaults, builder):
+    """nfaults: 1 = a cold rebuild for the first fault of each kind, the rest on
+    shared verified objects (quick); 2 = a cold rebuild for every fault;
+    3 = additionally every ordered pair of faults."""
     check = "rejected_dispatch_changes_nothing"
     ref = Ref(spec)
     sig0 = {"builder": builder}
@@ -175,7 +178,8 @@ def run_dispatcher(res, spec, nfaults, builder):
         faults = dispatcher_faults(ref, st)
         seqs = [(f,) for f in faults]
         if nfaults >= 2:
-            seqs += [(f, g) for f in faults for g in faults]
+            if nfaults >= 3:
+                seqs += [(f, g) for f in faults for g in faults]
             cold = set(range(len(seqs)))
         else:
             # quick: a cold rebuild for the first fault of each kind; the other
